@@ -44,6 +44,12 @@ def edge_modules(rng, n_multi):
     ax = [pi2v.IMP(S0, S1), pi2v.IMP(S1, pi2v.SYM(2)), N['neg'](N['neg'](S0))]
     mods.append({'axioms': ax, 'proofs': [['lemma', 'imp_transitivity', [{'thunk': ['axiom', 0]}, {'thunk': ['axiom', 1]}]], ['axiom', 2]]})
     mods.append({'axioms': ax, 'proofs': [['axiom', 1], ['axiom', 0], ['lemma', 'dne_l_i', [{'thunk': ['lemma', 'imp_provable', [{'pattern': N['neg'](N['neg'](S1))}, {'thunk': ['axiom', 0]}]]}]]]})
+    # axioms with pending substitutions whose PLUG mentions a metavariable; instantiate only that one
+    pend = [pi2v.IMP(pi2v.ES(M(0), 0, M(1)), M(1)), pi2v.IMP(M(1), pi2v.SS(M(0), 1, pi2v.IMP(M(1), M(2)))),
+            pi2v.IMP(pi2v.ES(pi2v.SS(M(0), 0, M(2)), 1, M(1)), M(0))]
+    mods.append({'axioms': pend, 'proofs': [['dyn', ['axiom', 0], [[1, X1]]], ['dyn', ['axiom', 1], [[2, S0]]], ['dyn', ['axiom', 1], [[1, pi2v.SV(0)], [2, M(0)]]],
+                                            ['dyn', ['axiom', 2], [[2, pi2v.SV(1)]]], ['dyn', ['axiom', 2], [[1, X0], [0, pi2v.IMP(X1, pi2v.SV(0))]]]]})
+    mods.append({'axioms': pend, 'proofs': [['dyn', ['axiom', 0], [[0, pi2v.IMP(X0, X0)], [1, X1]]], ['dyn', ['dyn', ['axiom', 0], [[1, M(2)]]], [[2, X1]]]]})
     return mods
 
 
